@@ -1,6 +1,6 @@
 #!/usr/bin/env python3
 """Recomputes tables/floors.json from the evidence of the last run of every
-check: floor = 70 % of the instance count per rule (at least 1). Run by hand
+check: floor = 50 % of the instance count per rule (at least 1). Run by hand
 after the instance counts were confirmed by reading; never run by a check.
 The margin lets benign edits (a fixed site disappears, a helper is inlined)
 pass while a rule that goes blind (anchor renamed, engine broken) still fails."""
@@ -17,7 +17,7 @@ for f in sorted(glob.glob(os.path.join(HERE, "evidence/C*.json"))):
         if rule in ("FLOOR", "ANCHOR", "VARIANT"):
             continue
         n = sum(m.values())
-        fl = max(1, min(n - 1, int(n * 0.7))) if n > 1 else 1
+        fl = max(1, min(n - 1, int(n * 0.5))) if n > 1 else 1
         out[pid][rule] = fl
         old = floors.get(pid, {}).get(rule)
         if old != fl:
